@@ -580,6 +580,7 @@ def describe_expected(case, exp):
 
 
 def run(ctx):
+    C.config_matrix(ctx["report"], ctx["rundir"], "C08", ["P(Binomial(10,0.3) <= 5)", "P(3 <= Binomial(10,0.3) <= 7)", "P(Poisson(3) <= 2)", "P(Gaussian(0,1) < 1)", "E(UniformInt(1,10))", "P(Binomial(0,1/2) <= 1)", "X = Poisson(3); P(X > 1000); P(X <= 2)", "X = Binomial(10, 0.3); A = 3 <= X <= 7; P(A); P(A)", "pi = 5; P(Binomial(10,0.3) <= pi)"])
     rep, tier, seed = ctx["report"], ctx["tier"], ctx["seed"]
     rng = random.Random(seed * 104729 + 8)
     # ---------------- 0. regression corpus and probes (run first)
